@@ -1,6 +1,6 @@
 """C11 -- El Torito boot structures point at the right bytes.  DESIGN.md section 8.11."""
 from harness import common, nsoracles, sysimg, syslevel, sysprops, sysrun
-from harness.props import etleaf, accountbootleaf
+from harness.props import etleaf, accountbootleaf, bootparseleaf
 
 MODULE = 'C11'
 
@@ -237,6 +237,7 @@ def run(ctx):
             ctx.broken.append({'name': 'correspondence:' + name, 'summary': 'translation disagrees with the Python method', 'coq_case': rows[i]})
     etleaf.leaf_correspondence(ctx)
     accountbootleaf.correspondence(ctx)
+    bootparseleaf.correspondence(ctx)
     # system level
     cfgs = syslevel.covering_configs(rng, 24)
     hist = []
